@@ -187,21 +187,22 @@ func (t *transport) Shutdown() error {
 		return nil
 	}
 	t.running = false
+	server := t.server
 	t.mu.Unlock()
 
 	stopped := make(chan interface{})
 	defer t.connManager.closeAll()
 
 	go func() {
-		t.server.GracefulStop()
+		server.GracefulStop()
 		close(stopped)
 	}()
 
 	select {
 	case <-time.After(shutdownGracePeriod):
-		t.server.Stop()
+		server.Stop()
 	case <-stopped:
-		t.server.Stop()
+		server.Stop()
 	}
 
 	return nil
